@@ -1504,7 +1504,12 @@ class EdgeQLSourceGenerator(codegen.SourceGenerator):
         self,
         node: qlast.DropExtension,
     ) -> None:
-        self._visit_DropObject(node, 'EXTENSION')
+        def after_name() -> None:
+            if node.version is not None:
+                self._write_keywords(' VERSION ')
+                self.visit(node.version)
+
+        self._visit_DropObject(node, 'EXTENSION', after_name=after_name)
 
     def visit_CreateFuture(
         self,
